@@ -1,5 +1,7 @@
 /- C11 invariants, part 8: object names; writtenCaches has one entry per name; the pending registration -/
 import SemaModel.C11.Inv7
+set_option linter.unusedSimpArgs false
+set_option linter.unusedVariables false
 namespace Sema.C11
 
 /-- program counters of the new-cache branch at which `use` is the object created for `acc.name` -/
